@@ -121,7 +121,9 @@ class GroupBy:
             raise ValueError("`aggregate` expects a list of Tuples")
 
         # Collecting the values for each group and column
-        for group_key, column, value in self._map([col for _, col in aggregations]):
+        for group_key, column, value in self._map(
+            list(dict.fromkeys(col for _, col in aggregations))
+        ):
             if value is not None:
                 column_value_map[group_key][column].append(value)
 
